@@ -74,6 +74,8 @@ func (c19) Plan(tier string, seed uint64) []core.Case {
 	for _, sc := range []c19scn{{"finish", "passive", rig.TCP, 1}, {"reset", "passive", rig.TCP, 1}, {"garbage", "passive", rig.WS, 1}, {"fail", "passive", rig.WS, 1}, {"drop", "passive", rig.InProc, 1}, {"finish", "passive", rig.InProc, 1}, {"regress", "passive", rig.TCP, 1}, {"regress", "passive", rig.InProc, 1}} {
 		scns = append(scns, sc)
 	}
+	// the server refuses the client's new sessions for a while after the loss
+	scns = append(scns, c19scn{"finish", "refused-for-a-while", rig.InProc, 1}, c19scn{"reset", "refused-for-a-while", rig.TCP, 1}, c19scn{"garbage", "refused-for-a-while", rig.WS, 1})
 	// many application goroutines inside the client's fast path while the session is lost again and again
 	scns = append(scns, c19scn{"garbage", "concurrent-callers", rig.TCP, 25}, c19scn{"reset", "concurrent-callers", rig.TCP, 25}, c19scn{"fail", "concurrent-callers", rig.InProc, 25}, c19scn{"garbage", "concurrent-callers", rig.WS, 15})
 	if tier != "thorough" {
@@ -136,10 +138,19 @@ func (p c19) scenario(r *core.Result, s c19scn, seed uint64) {
 		}
 		r.Violate("C19/"+k+"/"+s.Fault+"/"+s.Transport, tag+": "+fmt.Sprintf(format, a...))
 	}
-	var listenIters int64
+	var listenIters, fastPathHits int64
 	lime.VerifSetPointHandler(func(name string) {
 		if name == "client.listen.iter" {
 			atomic.AddInt64(&listenIters, 1)
+		}
+		if name == "client.getorbuild.ok" && s.Moment == "concurrent-callers" {
+			// between "the current channel is usable" and its use: give the goroutine that re-establishes the
+			// session a chance to run right here
+			if atomic.AddInt64(&fastPathHits, 1)%4 == 0 {
+				time.Sleep(50 * time.Microsecond)
+			} else {
+				runtime.Gosched()
+			}
 		}
 	})
 	defer lime.VerifSetPointHandler(nil)
@@ -156,6 +167,13 @@ func (p c19) scenario(r *core.Result, s c19scn, seed uint64) {
 	cfg := rig.DefaultServerConfig()
 	cfg.ChannelBufferSize = 8
 	cfg.EncryptOpts = []lime.SessionEncryption{lime.SessionEncryptionNone}
+	var rejectUntil int64 // unix nano: handshakes are refused until then
+	cfg.Authenticate = func(ctx context.Context, id lime.Identity, a lime.Authentication) (*lime.AuthenticationResult, error) {
+		if time.Now().UnixNano() < atomic.LoadInt64(&rejectUntil) {
+			return lime.UnknownAuthenticationResult(), nil
+		}
+		return lime.MemberAuthenticationResult(), nil
+	}
 	cfg.Established = func(id string, sc *lime.ServerChannel) {
 		srv.mu.Lock()
 		srv.sessions = append(srv.sessions, c19session{id, time.Now(), sc})
@@ -423,10 +441,25 @@ func (p c19) scenario(r *core.Result, s c19scn, seed uint64) {
 	for rep := 0; rep < s.Reps; rep++ {
 		_, before := latestSession()
 		t0 := time.Now()
+		if s.Moment == "refused-for-a-while" {
+			atomic.StoreInt64(&rejectUntil, time.Now().Add(1500*time.Millisecond).UnixNano())
+		}
+		built0 := atomic.LoadInt64(&built)
 		if !applyFault() {
 			break
 		}
 		faultAt = t0
+		if s.Moment == "refused-for-a-while" {
+			// the server is reachable but refuses the new session for 1.5 s: the client retries with its back-off
+			// (0, 100, 400, 900 ms, ...), it does not hammer the server
+			time.Sleep(1500 * time.Millisecond)
+			if n := atomic.LoadInt64(&built) - built0; n > 60 {
+				fail("reconnect-busy-loop", "while the server refused new sessions for 1.5 s after the fault, the client opened %d connections", n)
+			} else {
+				r.Count("refused_window_connections", int(n))
+				r.Count("refused_windows", 1)
+			}
+		}
 		if s.Moment == "passive" {
 			if !func() bool {
 				deadline := time.Now().Add(12 * time.Second)
